@@ -272,6 +272,13 @@ let eval fn args : string option =
      | raw :: table -> Some (obs_outcome psbkey_show (token_key (psb_table table) ks (bytes_of_hex raw)))
      | [] -> failwith "bad token_key args")
   | "root_key", [raw] -> Some (obs_outcome psbkey_show (root_key (bytes_of_hex raw)))
+  | "rtm_validate", level :: _image :: keyraw :: rtm :: l1 :: ln :: sg :: table ->
+    (* the pieces of the image as the generator laid them out; the OEM key in root key form *)
+    (match root_key (bytes_of_hex keyraw) with
+     | Ok k ->
+       Some (unit_obs (validate_rtm (psb_table table) (z_of_hex level) (bytes_of_hex rtm) (bytes_of_hex l1)
+                         (bytes_of_hex ln) (bytes_of_hex sg) k))
+     | _ -> failwith "rtm_validate: the OEM key does not parse")
   | _ -> None
 
 let () = run_file (fun fn args -> eval fn args) Sys.argv.(1)
